@@ -25,6 +25,11 @@
 //!   allow carrive <id> <peer> <hex target>   → ok   (the GET reached the handler)
 //!   allow cread <id> <k> / creadall <id>     → ok   (its rendering loads series k / every series not loaded yet)
 //!   allow crespond <id>                      → 403 empty | 200 ok | 200 render <v0,v1,…>
+//! round 6 (clients that half-close; request targets outside `/path[?query]`):
+//!   allow hc <peer> <hexmethod:hextarget,…>  → the answers to ONE connection whose client wrote these complete requests,
+//!                                              then shut down its write side (FIN) and read until EOF, joined by `|`
+//!   targets of `req` / `rq` / `ka` / `hc` may carry a `#fragment`, be absolute-form (`scheme://authority/path?query`)
+//!   or `*`; the oracle's `path_of` is an independent RFC 3986 split, the model's `pathOf` follows `http::Uri::path`
 //!
 //! implementation-side oracles (independent of the model; plain integer arithmetic on the entries the
 //! test generated): membership ⇒ 403+empty+no metric text / 200+"OK" / 200+body == handle.render() with
@@ -682,30 +687,79 @@ const TARGETS: &[&str] = &[
     "/.",
     "/health;x",
     "/health&x",
+    // (round 6) request targets outside `/path[?query]`: a fragment (httparse lets `#` through), absolute-form (what a
+    // client behind a proxy sends), asterisk-form
+    "/health#x",
+    "/health#",
+    "/health?a=1#b?c",
+    "/metrics#/health",
+    "/#/health",
+    "/healthz#/health",
+    "http://c18.test/health",
+    "http://c18.test:9000/health?probe=1",
+    "http://c18.test/health#frag",
+    "http://c18.test/metrics",
+    "http://health/metrics",
+    "http://c18.test/health/",
+    "http://c18.test",
+    "http://c18.test?/health",
+    "https://c18.test/health",
+    "*",
 ];
 
 fn gen_target(r: &mut Rng) -> String {
     match r.below(10) {
         0 => {
             let mut s = String::from("/");
-            let alphabet = b"abehlthmz/._-~%20=&;+09AZ";
+            let alphabet = b"abehlthmz/._-~%20=&;+09AZ#:";
             for _ in 0..r.range(0, 40) {
                 s.push(alphabet[r.below(alphabet.len())] as char);
             }
             if r.chance(1, 3) {
                 s.push_str("?q=");
-                s.push_str(r.pick_str(&["", "1", "/health", "a&b=c"]));
+                s.push_str(r.pick_str(&["", "1", "/health", "a&b=c", "#/health", "?"]));
+            }
+            if r.chance(1, 5) {
+                // the same target in absolute-form
+                s = format!("{}://{}{}", r.pick_str(&["http", "https", "h2c+x"]), r.pick_str(&["c18.test", "127.0.0.1:9000", "[::1]:80", "health"]), s);
             }
             s
         }
         1 => format!("/{}", "x".repeat(r.range(200, 1500))),
+        2 => {
+            // `/health` and near misses with a query / fragment / authority around them
+            let core = r.pick_str(&["/health", "/health", "/health/", "/healt", "/Health", "/", ""]);
+            let tail = r.pick_str(&["", "?", "#", "?x#y", "#x?y", "?/health", "#/health", ";x"]);
+            let head = r.pick_str(&["", "", "http://c18.test", "http://health:9000", "https://h"]);
+            let t = format!("{}{}{}", head, core, tail);
+            if t.is_empty() || t.starts_with('?') || t.starts_with('#') || t.starts_with(';') { "/".to_string() } else { t }
+        }
         _ => r.pick_str(TARGETS).to_string(),
     }
 }
 
-/// path component of an origin-form request target (what `http::Uri::path` returns for it)
+fn cut_path(s: &str) -> &str {
+    &s[..s.find(|c| c == '?' || c == '#').unwrap_or(s.len())]
+}
+
+/// ORACLE: the path component of a request target as RFC 3986 / RFC 9112 §3.2 split it (written without looking at
+/// `http::Uri`): origin-form `/path[?query]` (a `#fragment`, which the request-line parser lets through, is not part
+/// of the path either); absolute-form `scheme://authority[/path][?query][#fragment]` with `/` for an empty path;
+/// asterisk-form `*`; authority-form has no path.
 fn path_of(target: &str) -> &str {
-    target.split('?').next().unwrap_or("")
+    if target.starts_with('/') {
+        return cut_path(target);
+    }
+    if target == "*" {
+        return "*";
+    }
+    if let Some(i) = target.find("://") {
+        let rest = &target[i + 3..];
+        let j = rest.find(|c| c == '/' || c == '?' || c == '#').unwrap_or(rest.len());
+        let p = cut_path(&rest[j..]);
+        return if p.is_empty() { "/" } else { p };
+    }
+    ""
 }
 
 // ---------------------------------------------------------------------------------------------
@@ -839,6 +893,7 @@ const FAULTS: &[&str] =
 /// keep-alive connections carrying several requests
 const FAULTS2: &[&str] = &[
     "garbage", "halfopen", "reset", "bighead", "abort", "partial", "keepalive", "binary", "badversion", "concurrent", "accepterr", "accepterr", "ka", "ka", "flood",
+    "hc", "hc",
 ];
 
 /// performs one faulty / unusual connection from `src`; returns sockets to keep open until the case ends.
@@ -1475,23 +1530,72 @@ fn do_ka(
     reqs: &[(String, String)],
     out: &mut Out,
 ) -> Option<(String, String)> {
+    do_conn(l, list, src, reqs, None, out)
+}
+
+/// how a half-closing client behaves: it writes its requests, waits `fin_after`, shuts down its write side (FIN;
+/// the read side stays open) and then reads the answers until the server closes
+#[derive(Clone, Copy, Debug)]
+struct HalfClose {
+    fin_after: Duration,
+    /// `Connection: close` on the last request (a `printf … | nc` client sends none)
+    close_header: bool,
+}
+
+/// several requests on ONE connection, TCP or unix.  `hc == None`: keep-alive client (op `allow ka`), the socket stays
+/// fully open until every answer is read.  `hc == Some(..)`: the HALF-CLOSING client (op `allow hc`): complete,
+/// well-formed requests followed by `shutdown(Write)` — what `printf 'GET /metrics HTTP/1.1\r\nHost: x\r\n\r\n' | nc`,
+/// `socat - TCP:…`, HTTP/1.0-style clients and some health checkers do.  Every request of it is a well-formed request
+/// of the property and must be answered like any other.
+fn do_conn(
+    l: &Listener,
+    list: &Option<Vec<Entry>>,
+    src: Option<&Addr>,
+    reqs: &[(String, String)],
+    hc: Option<HalfClose>,
+    out: &mut Out,
+) -> Option<(String, String)> {
     let mut bytes = vec![];
     for (i, (m, t)) in reqs.iter().enumerate() {
-        bytes.extend_from_slice(&request_bytes(m, t, &[], i + 1 == reqs.len()));
+        bytes.extend_from_slice(&request_bytes(m, t, &[], i + 1 == reqs.len() && hc.map_or(true, |h| h.close_header)));
     }
     let dl = Instant::now() + IO_TIMEOUT;
     let mut answers: Vec<String> = vec![];
     let reqtok = crate::util::list(reqs.iter().map(|(m, t)| format!("{}:{}", hexs(m), hexs(t))));
     let (peer_tok, allowed, ctx);
     let mut carry = vec![];
+    let what = if hc.is_some() { "half-closed" } else { "keep-alive" };
+    let mut closed_after: Option<bool> = None;
     let mut run = |s: &mut dyn ReadWrite, allowed: bool, ctx: &str, out: &mut Out| -> Result<(), String> {
         s.write_all(&bytes).map_err(|e| format!("write: {:?}", e.kind()))?;
+        if let Some(h) = hc {
+            if !h.fin_after.is_zero() {
+                std::thread::sleep(h.fin_after);
+            }
+            s.shut_wr().map_err(|e| format!("shutdown(Write): {:?}", e.kind()))?;
+        }
         for (m, t) in reqs {
             let resp = read_response_opt(&mut *s, dl, &mut carry, m == "HEAD")?;
-            let c = format!("{} :: request {} {:?} of a keep-alive connection", ctx, m, t);
+            let c = format!("{} :: request {} {:?} of a {} connection", ctx, m, t, what);
             let ans = classify(l, m, &resp, &c, out);
             judge(l, allowed, m, t, &resp, &ans, &c, out);
             answers.push(ans);
+        }
+        if hc.is_some() && carry.is_empty() {
+            // the client has said it will send nothing more: does the server close once everything is answered?
+            // (observation only — the property speaks about answers)
+            let mut b = [0u8; 64];
+            closed_after = Some(loop {
+                match s.read(&mut b) {
+                    Ok(0) => break true,
+                    Ok(n) => {
+                        carry.extend_from_slice(&b[..n]);
+                        break false;
+                    }
+                    Err(e) if e.kind() == std::io::ErrorKind::Interrupted => {}
+                    Err(_) => break false,
+                }
+            });
         }
         Ok(())
     };
@@ -1520,9 +1624,24 @@ fn do_ka(
             }
         }
     };
-    let op = format!("allow ka {} {}", peer_tok, reqtok);
-    out.count("ka:connections");
-    out.count_n("ka:requests", reqs.len() as u64);
+    let op = format!("allow {} {} {}", if hc.is_some() { "hc" } else { "ka" }, peer_tok, reqtok);
+    if let Some(h) = hc {
+        out.count("hc:connections");
+        out.count_n("hc:requests", reqs.len() as u64);
+        out.count(if h.fin_after.is_zero() { "hc:fin-at-once" } else { "hc:fin-delayed" });
+        out.count(if allowed { "hc:allowed-peer" } else { "hc:denied-peer" });
+        if reqs.iter().any(|(m, t)| allowed && m != "HEAD" && path_of(t) != "/health") {
+            out.count("hc:with-rendering");
+        }
+        match closed_after {
+            Some(true) => out.count("hc:server-closed-after-answers"),
+            Some(false) => out.count("hc:server-kept-connection-open"),
+            None => {}
+        }
+    } else {
+        out.count("ka:connections");
+        out.count_n("ka:requests", reqs.len() as u64);
+    }
     match res {
         Ok(()) => {
             if !carry.is_empty() {
@@ -1532,17 +1651,48 @@ fn do_ka(
         }
         Err(e) => {
             UNANSWERED.fetch_add(1, std::sync::atomic::Ordering::Relaxed);
+            let sent: Vec<String> = reqs.iter().map(|(m, t)| format!("{} {}", m, t)).collect();
             out.oracle_fail(
-                "requests of a keep-alive connection were not all answered",
-                &format!("{} :: {} of {} answered, then {}", ctx, answers.len(), reqs.len(), e),
+                if hc.is_some() {
+                    "complete well-formed request(s) followed by a half-close (FIN) were not all answered"
+                } else {
+                    "requests of a keep-alive connection were not all answered"
+                },
+                &format!("{} :: sent {:?}{} :: {} of {} answered, then {}", ctx, sent,
+                    hc.map_or(String::new(), |h| format!(", then shutdown(Write) after {:?}", h.fin_after)),
+                    answers.len(), reqs.len(), e),
             );
             Some((op, format!("noanswer {}", e.replace(' ', "_"))))
         }
     }
 }
 
-trait ReadWrite: Read + Write {}
-impl<T: Read + Write> ReadWrite for T {}
+trait ReadWrite: Read + Write {
+    /// `shutdown(SHUT_WR)`: FIN to the peer, the read side stays open
+    fn shut_wr(&self) -> std::io::Result<()>;
+}
+impl ReadWrite for TcpStream {
+    fn shut_wr(&self) -> std::io::Result<()> {
+        self.shutdown(std::net::Shutdown::Write)
+    }
+}
+impl ReadWrite for std::os::unix::net::UnixStream {
+    fn shut_wr(&self) -> std::io::Result<()> {
+        self.shutdown(std::net::Shutdown::Write)
+    }
+}
+
+fn gen_half_close(r: &mut Rng) -> HalfClose {
+    HalfClose {
+        // at once (the FIN is in the socket before the server has read the request), or while the answer is being made
+        fin_after: match r.below(4) {
+            0 | 1 => Duration::ZERO,
+            2 => Duration::from_micros(r.range(50, 2000) as u64),
+            _ => Duration::from_millis(r.range(2, 25) as u64),
+        },
+        close_header: r.chance(1, 3),
+    }
+}
 
 fn gen_ka_reqs(r: &mut Rng) -> Vec<(String, String)> {
     (0..r.range(2, 4)).map(|_| (r.pick_str(METHODS).to_string(), if r.chance(1, 3) { "/health".to_string() } else { gen_target(r) })).collect()
@@ -1671,7 +1821,9 @@ fn run_uds_case(r: &mut Rng, l: &mut Listener, list: &Option<Vec<Entry>>, out: &
         }
         if r.chance(1, 3) {
             let reqs = gen_ka_reqs(r);
-            if let Some((op, ans)) = do_ka(l, &no_list, None, &reqs, out) {
+            // (round 6) half of these connections are half-closed by the client after the last request
+            let hc = if r.chance(1, 2) { Some(gen_half_close(r)) } else { None };
+            if let Some((op, ans)) = do_conn(l, &no_list, None, &reqs, hc, out) {
                 out.op(&op, &ans);
             }
             continue;
@@ -1707,6 +1859,13 @@ fn run_uds_case(r: &mut Rng, l: &mut Listener, list: &Option<Vec<Entry>>, out: &
                 let _ = t.write_all(b"\x16\x03\x01garbage\r\n\r\n");
                 out.count("fault:unix-garbage");
             }
+        }
+    }
+    // (round 6) `printf 'GET /metrics …' | socat - UNIX-CONNECT:path`: complete GET, then the write side is shut down
+    if !gave_up() {
+        let hc = HalfClose { fin_after: Duration::ZERO, close_header: false };
+        if let Some((op, ans)) = do_conn(l, &no_list, None, &[("GET".to_string(), "/metrics".to_string())], Some(hc), out) {
+            out.op(&op, &ans);
         }
     }
     // (round 5) overlapping scrapes over the unix socket
@@ -2445,7 +2604,12 @@ fn run_case(r: &mut Rng, env: &Env, spec: CaseSpec, tag: &str, out: &mut Out) {
             l.marker_val += n;
             out.op(&format!("allow inc {}", n), "ok");
         }
-        let res = if r.chance(1, 2) {
+        let res = if r.chance(1, 5) {
+            // (round 6) the same request from a client that half-closes after it
+            let method = if r.chance(2, 3) { "GET" } else { r.pick_str(METHODS) };
+            let hc = gen_half_close(r);
+            do_conn(l, &list, Some(peer), &[(method.to_string(), target.to_string())], Some(hc), out)
+        } else if r.chance(1, 2) {
             let method = r.pick_str(METHODS);
             let sport = if r.chance(1, 3) { r.range(1, 1023) as u16 } else { 0 };
             let hs = gen_headers(r, &list);
@@ -2476,6 +2640,14 @@ fn run_case(r: &mut Rng, env: &Env, spec: CaseSpec, tag: &str, out: &mut Out) {
         let t = gen_target(r);
         step(&mut l, r, out, &p, &t);
     }
+    // (round 6) in every case: `printf 'GET /metrics HTTP/1.1\r\nHost: c18.test\r\n\r\n' | nc` — a complete GET, FIN at once
+    if !gave_up() {
+        let p = *r.pick(&peers);
+        let hc = HalfClose { fin_after: Duration::ZERO, close_header: false };
+        if let Some((op, ans)) = do_conn(&l, &list, Some(&p), &[("GET".to_string(), "/metrics".to_string())], Some(hc), out) {
+            out.op(&op, &ans);
+        }
+    }
     // 2b. (round 5) overlapping scrapes with an update in between: every hand-picked configuration, half of the others
     if l.handle.is_some() && !gave_up() && (tag.starts_with("corpus") || r.chance(1, 2)) {
         do_overlap(&l, &list, &peers, false, r, out);
@@ -2495,6 +2667,15 @@ fn run_case(r: &mut Rng, env: &Env, spec: CaseSpec, tag: &str, out: &mut Out) {
             if kind == "ka" {
                 let reqs = gen_ka_reqs(r);
                 if let Some((op, ans)) = do_ka(&l, &list, Some(&p), &reqs, out) {
+                    out.op(&op, &ans);
+                }
+                continue;
+            }
+            if kind == "hc" {
+                // one to three requests (pipelined), then FIN
+                let reqs = if r.chance(1, 2) { gen_ka_reqs(r) } else { vec![("GET".to_string(), gen_target(r))] };
+                let hc = gen_half_close(r);
+                if let Some((op, ans)) = do_conn(&l, &list, Some(&p), &reqs, Some(hc), out) {
                     out.op(&op, &ans);
                 }
                 continue;
